@@ -9,6 +9,10 @@ pub mod c06;
 #[cfg(feature = "full")]
 pub mod c07;
 #[cfg(feature = "full")]
+pub mod c09;
+#[cfg(feature = "full")]
+pub mod c26;
+#[cfg(feature = "full")]
 pub mod c30;
 #[cfg(feature = "full")]
 pub mod c31;
@@ -43,6 +47,8 @@ pub fn all() -> Vec<Property> {
         v.push(Property { id: "C05", level: "exploration", build: c05::build });
         v.push(Property { id: "C06", level: "exploration", build: c06::build });
         v.push(Property { id: "C07", level: "exploration", build: c07::build });
+        v.push(Property { id: "C09", level: "exploration", build: c09::build });
+        v.push(Property { id: "C26", level: "exploration", build: c26::build });
         v.push(Property { id: "C30", level: "exploration", build: c30::build });
         v.push(Property { id: "C31", level: "exploration", build: c31::build });
         v.push(Property { id: "C32", level: "exploration", build: c32::build });
